@@ -1,5 +1,5 @@
 """C05 — Boolean operations compute the set-theoretic result."""
-from checks.clipcommon import same, nontrivial, classify  # noqa
+from checks.clipcommon import same, nontrivial, classify as _classify  # noqa
 CONFIG = {
     "manifest": {'level_text': "Tier B (DESIGN 1.3). Theorems, closed under the global context: the integer winding number is invariant under rotation of the vertex list and exactly negated by reversal (at every point), shoelace likewise, Polygon::signed_area's fan sum is the shoelace sum; normalising every operand to positive orientation makes Clipper's non-zero fill the union of the group (nonzero_union); the whole link_holes model (hole ordering, edge search with llround and the horizontal-edge branch, splice) preserves the winding number up to the foot slivers and adds the areas (holes become zero-width slits); tree_to_polygons flattens the poly-tree as stated; boolean_correct / no_overlap are proved CONDITIONAL on Clipper's contract (Section hypotheses). The squared point-segment distance test used for the guard band is proved to be the minimum over the segment. Per run: the extracted verified oracle decides the property on the real boolean() outputs at sample points (validation, sampling), and the link_holes model is compared with the real function.", 'level_note': "Clipper's Vatti clipping (external/clipper, ~4000 lines) is NOT modelled: it is an oracle whose contract is a premise of the _partial theorems and is validated per run by sampling. Known finding: boolean() can return BooleanError and drop a hole when Clipper's intersection rounding puts the hole's minimum vertex half a unit outside its contour (link_holes finds no edge).", 'technique': "Coq proofs of the winding/area algebra and of gdstk's glue around Clipper + extracted verified winding oracle deciding sampled membership on real outputs"},
     "prop_file": "Properties_C05",
@@ -15,3 +15,13 @@ CONFIG = {
     "assumptions": ["input polygons are simple (Jordan premise of the winding theorems), checked exactly by the generator"],
     "validation_note": "region clauses are validated per run at sample points by the extracted verified oracle (sampling, not a theorem)",
 }
+
+
+def classify(kind, payload, r, m):
+    # a membership failure at a point that the result covers although (A op B) does not, in a result that contains a
+    # negatively oriented polygon: Clipper returned a hole contour (one that shares an edge with its outer contour) as a
+    # top-level contour and boolean() hands it on as a filled polygon - recorded finding, own key
+    s = m.get("S", "")
+    if kind == "bool" and "[negatively-oriented-output]" in s:
+        return "bool-hole-as-polygon"
+    return _classify(kind, payload, r, m)
